@@ -264,10 +264,10 @@ func c15RealPlan(ctx *core.Ctx, cv *c15Curve) []c15Scenario {
 	classes := []string{"1", "q-1", "random"}
 	var out []c15Scenario
 	mk := func(t int, secret *big.Int, ids []*big.Int, alter bool, label string) {
-		// the material of one share (quick) or two shares (thorough) is altered, rotating through the positions
+		// the material of one share (every third dealing of the thorough tier: two shares) is altered, rotating through the positions
 		n, k := len(ids), len(out)
 		only := []int{k % n}
-		if ctx.Thorough() && n > 1 {
+		if ctx.Thorough() && n > 1 && k%3 == 0 {
 			only = append(only, (k+1+n/2)%n)
 			if only[1] == only[0] {
 				only[1] = (only[0] + 1) % n
@@ -288,7 +288,7 @@ func c15RealPlan(ctx *core.Ctx, cv *c15Curve) []c15Scenario {
 		}
 	}
 	// sampled
-	for i := 0; i < ctx.Pick(6, 400); i++ {
+	for i := 0; i < ctx.Pick(6, 120); i++ {
 		t := 1 + rng.Intn(4)
 		n := t + rng.Intn(7-t)
 		mk(t, rnd(), idsFor(patterns[rng.Intn(len(patterns))], n), i%4 == 0 || !ctx.Thorough(), "sampled")
@@ -874,7 +874,7 @@ func C15(ctx *core.Ctx) error {
 	for _, k := range names {
 		a := stats[k]
 		groupsOut[k] = map[string]int{"dealt": a.ok, "refused": a.refused, "create_panics_degenerate": a.panics, "degenerate_dealings": a.degenerate, "verify_calls": a.verifies,
-			"reconstruct_calls": a.recons, "reconstruct_with_at_most_t_shares": a.fewer, "of_which_hit_the_secret_by_chance": a.fewerHits,
+			"reconstruct_calls": a.recons, "reconstruct_with_at_most_t_shares": a.fewer, "of_which_returned_the_secret": a.fewerHits,
 			"other_id_with_equal_share_value": a.coinc, "congruent_id_or_share_accepted": a.alias, "dealings_with_drift": a.drift}
 	}
 	cov.Set("mc_configs", mcOut)
@@ -903,7 +903,7 @@ func C15(ctx *core.Ctx) error {
 			"the discrete-log projection is a table computed with the harness's own arithmetic",
 			"byte tapes drive common.GetRandomPositiveInt to every coefficient vector on the exhaustive toy orders; that they do is measured (coverage of all (q-1)^t vectors), outputs are never predicted from the tape",
 			"degenerate dealings (secret or a coefficient or a share or a partial verification sum = 0 mod q) cannot be represented by crypto.ECPoint on a Weierstrass curve; the model describes what the code does with them and the property is judged on the others",
-			"at toy size t shares interpolate to the secret for about 1/q of the polynomials and another id can have the same share value: counted, not judged; FeldmanVSS.tla states the exact conditions (Secrecy, OtherIdFails)",
+			"at toy size another id can have the same share value (then the share IS that id's share): counted, not judged; FeldmanVSS.tla states the exact condition (OtherIdFails). 'Fewer than t+1 never do' is exact also at toy size (degree exactly t), and Secrecy states the information-theoretic version on the model",
 			"real-size oracle: harness/obs affine arithmetic (self-checked against published vectors) and math/big interpolation (self-checked)",
 		}, "java tlc2.TLC FeldmanVSS.tla / FeldmanVSS_Trace.tla")
 }
